@@ -376,6 +376,37 @@ pub fn j_pairs(v: &[(u32, u8)]) -> String {
     s.push(']');
     s
 }
+/// explicit pokes as disjoint contiguous runs [[start,[b0,b1,..]],..]; later pokes win
+pub fn j_runs(pokes: &[(u32, u8)]) -> String {
+    let mut m: std::collections::BTreeMap<u32, u8> = std::collections::BTreeMap::new();
+    for &(a, b) in pokes {
+        m.insert(a, b);
+    }
+    let mut s = String::from("[");
+    let mut first = true;
+    let mut cur: Option<(u32, Vec<u8>)> = None;
+    let mut flush = |cur: &mut Option<(u32, Vec<u8>)>, s: &mut String, first: &mut bool| {
+        if let Some((st, bytes)) = cur.take() {
+            if !*first {
+                s.push(',');
+            }
+            *first = false;
+            s.push_str(&format!("[{},{}]", st, j_bytes(&bytes)));
+        }
+    };
+    for (&a, &b) in m.iter() {
+        match &mut cur {
+            Some((st, bytes)) if *st + bytes.len() as u32 == a => bytes.push(b),
+            _ => {
+                flush(&mut cur, &mut s, &mut first);
+                cur = Some((a, vec![b]));
+            }
+        }
+    }
+    flush(&mut cur, &mut s, &mut first);
+    s.push(']');
+    s
+}
 pub fn j_msgs(v: &[Vec<u8>]) -> String {
     let mut s = String::from("[");
     for (i, m) in v.iter().enumerate() {
